@@ -227,8 +227,21 @@ func (x *runner) cutOnce(sc *streamCase, limit int, withW bool) {
 		r.Count("cut:proper-prefix")
 		r.Nontrivial(fmt.Sprintf("%s|%d|%d", sc.sig, eLen, dLen))
 	}
-	if len(enc) >= 1 && (enc[0]&6) == 0 && (sc.enc[0]&6) != 0 && !sc.zlib {
+	ps := 0 // start of the DEFLATE data
+	if sc.zlib {
+		ps = 2
+		if sc.dict != nil {
+			ps = 6
+		}
+	}
+	if len(enc) > ps && (enc[ps]&6) == 0 && (sc.enc[ps]&6) != 0 {
 		r.Count("cut:replaced-by-stored-block")
+		switch {
+		case dLen == 0xFFFF:
+			r.Count("cut:replaced-by-stored-block:n=65535")
+		case dLen > 32768:
+			r.Count("cut:replaced-by-stored-block:n>32768")
+		}
 	}
 }
 
@@ -876,6 +889,22 @@ func (x *runner) corpus(rng *hlib.Rand) {
 				}
 				sc := &streamCase{sig: "corpus|" + n, enc: enc, payload: p}
 				x.runStream(sc, rng, 40)
+			case f[0] == "flatel" && len(f) == 3: // flatel <limit,limit,...> <hex stream>: these limits only, with and without writer
+				enc := hlib.UnHex(f[2])
+				p, err := flateDecode(enc, nil)
+				if err != nil {
+					x.r.Note("corpus " + n + ": flatel stream does not decode, skipped")
+					continue
+				}
+				sc := &streamCase{sig: "corpus|" + n, enc: enc, payload: p}
+				x.r.Count("stream:corpus")
+				for _, ls := range strings.Split(f[1], ",") {
+					var l int
+					if _, err := fmt.Sscan(ls, &l); err == nil {
+						x.cutOnce(sc, l, false)
+						x.cutOnce(sc, l, true)
+					}
+				}
 			case f[0] == "zlib" && len(f) == 3:
 				dict := hlib.UnHex(f[1])
 				enc := hlib.UnHex(f[2])
@@ -909,10 +938,12 @@ func main() {
 	nGo, nAsm, nZlib, nBig, nRobust, nFunc, nInfl := 40, 70, 30, 4, 1500, 700, 500
 	n64k := 4
 	bigLimits := 30
+	nWin, nWinR, nWinSmall := 16, 5, 16
 	if r.Thorough {
 		nGo, nAsm, nZlib, nBig, nRobust, nFunc, nInfl = 250, 700, 200, 30, 40000, 12000, 8000
 		n64k = 24
 		bigLimits = 120
+		nWin, nWinR, nWinSmall = 160, 14, 200
 	}
 
 	x.corpus(rng.Fork())
@@ -1142,6 +1173,11 @@ func main() {
 		}
 		r.Op("adler "+hlib.Hex(b), fmt.Sprint(adler32.Checksum(b)))
 	}
+
+	// (8) first Huffman blocks of more than 32 KiB that do not compress: cutSingleBlock with n > 32768,
+	// compress/flate's window flushes, decode destination vs encoded source (window.go)
+	x.windowGroup(rng.Fork(), nWin, nWinR)
+	x.windowSmall(rng.Fork(), nWinSmall, bigLimits)
 
 	r.Extra("oracle_cases", x.oracleN+x.robustN)
 	r.Extra("valid_stream_cuts_ok", x.validCuts)
